@@ -196,9 +196,12 @@ def renamed_names(problems, left_private, right_private, public):
         for f in p['formulas']:
             present |= fol_preds(f['formula'])
     table = {}
-    for (n, a) in clash:
-        cands = sorted(x for (x, ar) in present if ar == a and re.fullmatch(re.escape(n) + r'_p\d*', x)
-                       and (x, ar) not in original)
+    for (n, a) in sorted(clash):
+        new = sorted(x for (x, ar) in present if ar == a and (x, ar) not in original and (x, a) not in table)
+        # anthem's current scheme first (<name>_p, <name>_p<k>); then any new name built on <name>; then the only new
+        # predicate of that arity - so that a different but consistent naming scheme is not reported as a defect
+        cands = [x for x in new if re.fullmatch(re.escape(n) + r'_p\d*', x)] or [x for x in new if x.startswith(n)] \
+            or (new if len(new) == 1 else [])
         table[(cands[0] if cands else n + '_p', a)] = (n, a)
     return table
 
